@@ -11,6 +11,7 @@ later occurrence must be bitwise equal.
 
 from __future__ import annotations
 
+import copy
 import json
 import os
 import random as pyrandom
@@ -88,7 +89,7 @@ def draw_params(st, name):
         k = st.int_range(0, mind)
         return {"dim": dim, "is_real": bool(st.draw(2)), "k_param": k}
     if name == "random_povm":
-        return {"dim": st.int_range(1, 4), "num_inputs": st.int_range(1, 3), "num_outputs": st.int_range(1, 4)}
+        return {"dim": st.int_range(1, 4), "num_inputs": st.int_range(1, 3), "num_outputs": st.int_range(1, 6)}
     if name == "random_circulant_gram_matrix":
         return {"dim": st.int_range(1, 6)}
     if name == "random_states":
@@ -185,10 +186,10 @@ def draw_client_ops(st, n_ops, hot):
             pure = bool(st.draw(2))
             n = st.int_range(d if pure else 2, 6)
             w = [1 + st.draw(8) for _ in range(n)]
-            ops.append({"op": "pgm", "d": d, "n": n, "pure": pure, "weights": w, "uniform_default": bool(st.draw(4) == 0), "seed": SEED_POOL[st.draw(len(SEED_POOL))], "bad": bool(st.draw(2))})
+            ops.append({"op": "pgm", "d": d, "n": n, "pure": pure, "weights": w, "uniform_default": bool(st.draw(4) == 0), "seed": SEED_POOL[st.draw(len(SEED_POOL))], "bad": bool(st.draw(2)), "form": st.draw(3), "probs_array": bool(st.draw(3) == 0)})
         else:
             d = st.int_range(1, 4)
-            ops.append({"op": "measure", "d": d, "mkind": st.choice(["povm_sqrt", "projective", "single", "incomplete"]), "outs": st.int_range(2, 4), "update": bool(st.draw(2)), "as_tuple": bool(st.draw(3) == 0), "seed": SEED_POOL[st.draw(len(SEED_POOL))]})
+            ops.append({"op": "measure", "d": d, "mkind": st.choice(["povm_sqrt", "projective", "single", "incomplete", "isometric"]), "outs": st.int_range(2, 4), "update": bool(st.draw(2)), "as_tuple": bool(st.draw(3) == 0), "seed": SEED_POOL[st.draw(len(SEED_POOL))]})
     return ops
 
 
@@ -240,8 +241,21 @@ def as_seed(seed, form):
     return seed
 
 
-def call_gen(R, name, params, seed, form="int"):
+def call_gen(R, name, params, seed, form="int", live=None):
+    """`live`: per-client dict of long-lived argument objects.  A list-valued argument is passed as the same
+    list object on every call of that client (a caller who keeps its dimension list around); if the library
+    changed it in place, later calls would see other arguments than the reference evaluation."""
     fn = getattr(R, name)
+    if live is not None:
+        params = dict(params)
+        for k, v in list(params.items()):
+            if isinstance(v, list):
+                key = (name, k, json.dumps(v))
+                if key not in live:
+                    live[key] = list(v)
+                params[k] = live[key]
+    else:
+        params = copy.deepcopy(params)
     try:
         return ("ok", fn(**params, seed=as_seed(seed, form)))
     except Exception as e:  # library exception: recorded, judged by the oracle
@@ -325,11 +339,13 @@ def run(cs, tier, run_index):
         seq = [0]
 
         def make_client(i):
+            live = {}
+
             def body(yield_fn):
                 for k, op in enumerate(client_ops[i]):
                     seq[0] += 1
                     start = seq[0]
-                    out = exec_op(R, pgm_f, pbm_f, measure_f, op)
+                    out = exec_op(R, pgm_f, pbm_f, measure_f, op, live=live)
                     seq[0] += 1
                     records[i].append((k, op, out, start, seq[0]))
                     yield_fn()
@@ -455,7 +471,7 @@ def expand_gen_calls(op):
         return [("random_density_matrix", {"dim": op["d"], "is_real": False, "k_param": None, "distance_metric": "haar"}, (op["seed"] + j) % (2**32), "int") for j in range(op["n"])]
     if op["op"] == "measure":
         calls = [("random_density_matrix", {"dim": op["d"], "is_real": False, "k_param": None, "distance_metric": "haar"}, op["seed"], "int")]
-        if op["mkind"] in ("povm_sqrt", "incomplete"):
+        if op["mkind"] in ("povm_sqrt", "incomplete", "isometric"):
             calls.append(("random_povm", {"dim": op["d"], "num_inputs": 1, "num_outputs": op["outs"]}, op["seed"], "int"))
         else:
             calls.append(("random_unitary", {"dim": op["d"], "is_real": False}, op["seed"], "int"))
@@ -463,18 +479,25 @@ def expand_gen_calls(op):
     return []
 
 
-def exec_op(R, pgm_f, pbm_f, measure_f, op):
+def exec_op(R, pgm_f, pbm_f, measure_f, op, live=None):
     """Runs inside a client thread (traced).  Only library calls, no oracles."""
     out = {"calls": []}
     for name, params, seed, form in expand_gen_calls(op):
-        out["calls"].append((name, params, seed, call_gen(R, name, params, seed, form), form))
+        out["calls"].append((name, params, seed, call_gen(R, name, params, seed, form, live=live), form))
     if op["op"] == "pgm":
         objs = [c[3] for c in out["calls"]]
         if any(o[0] != "ok" for o in objs):
             return out
         states = list(objs[0][1]) if op["pure"] else [o[1] for o in objs]
+        form = op.get("form", 0)
+        if op["pure"] and form == 1:  # 1-D vectors
+            states = [np.asarray(v).reshape(-1) for v in states]
+        elif op["pure"] and form == 2:  # kets and density matrices mixed in one list
+            states = [v if j % 2 == 0 else v @ v.conj().T for j, v in enumerate(states)]
         tot = float(sum(op["weights"]))
         probs = None if op["uniform_default"] else [w / tot for w in op["weights"]]
+        if probs is not None and op.get("probs_array"):
+            probs = np.array(probs)
         out["states"], out["probs"] = states, probs
         try:
             out["pgm"] = ("ok", pgm_f(states, probs))
@@ -491,11 +514,15 @@ def exec_op(R, pgm_f, pbm_f, measure_f, op):
             return out
         rho = objs[0][1]
         d = op["d"]
-        if op["mkind"] in ("povm_sqrt", "incomplete"):
+        if op["mkind"] in ("povm_sqrt", "incomplete", "isometric"):
             povm = objs[1][1]
             kraus = [models.psd_sqrt(povm[:, :, 0, a]) for a in range(povm.shape[3])]
             if op["mkind"] == "incomplete":
                 kraus = kraus[:-1]
+            if op["mkind"] == "isometric":
+                # Kraus operators into a larger output space: K_a = V sqrt(M_a), V an isometry d -> d + 1
+                v_iso = np.eye(d + 1, d)
+                kraus = [v_iso @ kk for kk in kraus]
         elif op["mkind"] == "projective":
             u = objs[1][1]
             kraus = [np.outer(u[:, j], u[:, j].conj()) for j in range(d)]
